@@ -33,7 +33,21 @@ def run(tier, seed):
     cov["evaluations"] += nl
     cov["size_ladder"] = dict(sizes=ladder_sizes(tier), line_lengths=list(LINE_LENGTHS), modes=["bytes", "str", "file"], executions=nl,
                               rule="scripts of n commands with n*L just under / at / just over each size; result must hold all n commands")
+    ob = 2 if tier == "quick" else 3
+    ro = pool.run_tasks("checks.c03:overlap_task", [(g, ob if len(g) == 2 else ob - 1, "C03") for g in overlap_groups(tier)])
+    no = sum(r["n"] for r in ro)
+    for r in ro:
+        viols.extend(r["violations"])
+    cov["transitions"] += no
+    cov["traces_validated_against_impl"] += no
+    cov["evaluations"] += no
+    cov["overlap"] = dict(scripts=len(OVERLAP_SCRIPTS), groups=len(overlap_groups(tier)), preemption_bound=ob, schedules=no,
+                          rule="every schedule with <= bound preemptions of 2 (3: bound - 1) parses on distinct Parser objects, switching at token "
+                               "boundaries; each accepted tree must equal the tree of the same script parsed alone")
     viols = [v for v in viols if v["property"] == "C03"]
+    sc = pool.run_tasks("checks.c03:overlap_selfcheck", [0], force_pool=True)[0]
+    if sc:
+        harness = list(harness) + ["interleaving explorer self-check: " + sc]
     return dict(violations=viols, coverage=cov, harness_errors=harness, assumptions=PC.ASSUMPTIONS)
 
 
@@ -96,7 +110,74 @@ def ladder_task(t):
     return dict(n=n_exec, violations=viols)
 
 
+# ---------------------------------------------------------------------------------------------
+# E2: overlapping parses - two or three Parser objects whose parse() calls are interleaved at every token boundary
+# (mc/interleave.py; all schedules up to a preemption bound). Scripts use core commands only: the loaded-extension list is
+# process-global by the library's design (it is the state C13 is anchored in), so scripts with `require` are kept out.
+
+OVERLAP_SCRIPTS = [b"keep; stop; discard;", b"if true { keep; }", b'if header :is "a" "b" { stop; } else { keep; }',
+                   b"if anyof (true, not false) { discard; }", b"keep; foo;", b'redirect "a@b"; keep', b'if size :over 1K { redirect "x"; }']
+
+
+def overlap_groups(tier):
+    import itertools
+    n = len(OVERLAP_SCRIPTS)
+    groups = [(i, j) for i in range(n) for j in range(i, n)]
+    groups += [(0, 1, 2), (1, 3, 4), (2, 2, 2), (0, 4, 5)]
+    return groups
+
+
+def overlap_selfcheck(_t):
+    from mc import interleave as I
+    return I.selfcheck(E.seams.load())
+
+
+def overlap_task(t):
+    from mc import interleave as I
+    group, bound, prop = t
+    ns = E.seams.load()
+    texts = [OVERLAP_SCRIPTS[i] for i in group]
+    want = I.sequential(ns, texts)
+    viols = []
+    n = 0
+    outcomes = set()
+    for choices, results, r in I.explore(ns, texts, bound=bound):
+        n += 1
+        outcomes.add(repr(results))
+        if r.timeout:
+            viols.append({"property": prop, "engine": "parser", "signature": [prop, "overlap", "group%s" % (group,), "no-return"],
+                          "what": "overlapping parses %r under schedule %r do not finish" % (texts, choices), "case": {"overlap": list(group), "schedule": choices},
+                          "witness": "schedule %r" % (choices,), "observed": "timeout"})
+            break
+        for k, (got, exp) in enumerate(zip(results, want)):
+            if got == exp:
+                continue
+            tree_only = got[0] == "ACC" and exp[0] == "ACC"
+            if prop == "C03" and not tree_only:
+                continue
+            viols.append({"property": prop, "engine": "parser",
+                          "signature": [prop, "overlap", "script%d" % group[k], "tree" if tree_only else "%s-instead-of-%s" % (got[0], exp[0])],
+                          "what": "parse of %r overlapped with %r (schedule %r): %r, alone: %r" % (texts[k], [x for j, x in enumerate(texts) if j != k], choices, got, exp),
+                          "case": {"overlap": list(group), "schedule": choices, "bound": bound},
+                          "witness": "texts=%r schedule=%r" % (texts, choices), "observed": repr(got)[:200]})
+            break
+        if len(viols) >= 3:
+            break
+    return dict(n=n, outcomes=len(outcomes), violations=viols)
+
+
 def replay(payload):
+    if payload.get("case", {}).get("overlap"):
+        from mc import interleave as I
+        c = payload["case"]
+        ns = E.seams.load()
+        texts = [OVERLAP_SCRIPTS[i] for i in c["overlap"]]
+        want = I.sequential(ns, texts)
+        got = I.Run(ns, texts, c["schedule"]).execute()
+        if got != want:
+            return [{"property": payload["property"], "signature": payload["signature"], "what": "overlapped: %r, alone: %r" % (got, want),
+                     "witness": payload.get("witness"), "observed": repr(got)[:200]}]
+        return []
     if payload.get("case", {}).get("ladder"):
         mode, L, n = payload["case"]["ladder"]
         bad = ladder_case(mode, L, n)
